@@ -96,6 +96,7 @@ type IndexKey struct {
 	Table  string
 	Fields []string
 	Vals   []Val
+	All    []string // all fields of the index, in index order (from the longest With... method)
 }
 
 // IterV is an ORM iterator (engine-side, see orm.go).
